@@ -67,7 +67,7 @@ CHECKS = {
         "level_note": "Fault model is process death (no torn or reordered disk writes). Known finding F8: the points between the first and the last durable write fail on the unchanged tree in one specific mode; exactly that (point, mode) set is tolerated and counted, anything else alarms.",
         "quick": {"checks": 12, "timeout": 900},
         "thorough": {"checks": 40, "shards": 15, "timeout": 3000},
-        "rule": "crash points enumerated per block of rapid-generated histories (5-14 blocks); evaluations = histories, extra.crash_points = examined points per label; non-trivial = a history with at least one examined crash point strictly inside Commit; distinct = distinct (tx shape, number of points) hashes",
+        "rule": "crash points enumerated per block of rapid-generated histories (5-16 blocks; the 10th block, whose commit also writes the reward-hash record, is always among the sampled ones); evaluations = histories, extra.crash_points = examined points per label; non-trivial = a history with at least one examined crash point strictly inside Commit; distinct = distinct (tx shape, number of points) hashes",
         "assumptions": COMMON_ASSUME + ["no background writer touches the data directory while it is copied (goleveldb compaction does not run on these kilobyte-sized stores)"],
     },
     "C09": {
